@@ -31,6 +31,7 @@ def _history_op(rnd, cfg, oid):
         op["kw"] = {"n_requested_samples": rnd.randint(1, 4), "init_batch_size": rnd.randint(1, n), "n_linear_samples": rnd.choice([1, 2])}
     if op["source"] == "file" and rnd.random() < 0.4:
         op["alias"] = "shared"
+        op["alias_mode"] = rnd.choice(["overwrite", "overwrite", "append-overwrite"])
     return op
 
 
@@ -39,6 +40,7 @@ def _path(rnd, cfg):
     p = {"source": "file" if src == "file" else "object", "in_memory": src == "object-mem"}
     if src == "file" and rnd.random() < 0.35:
         p["alias"] = "shared"
+        p["alias_mode"] = rnd.choice(["overwrite", "overwrite", "append-overwrite"])
     p["joker"] = rnd.choice(["main", "main", "fresh"])
     if p["joker"] == "fresh":
         p["pool"] = rnd.choice([{"kind": "serial"}, {"kind": "sim", "size": rnd.randint(1, 6)}])
